@@ -13,7 +13,8 @@ CFG = dict(round="ideal", nl_uf=False, div="assume", timeout_ms=4000)
 
 def obligations(tier):
     # H5 does not divide the day: bucket edges counted from the epoch and from midnight disagree there
-    tfs = ["S10", "T5", "H1", "H5", "D1"] if tier == "quick" else ["S5", "T1", "T5", "T7", "T45", "H1", "H4", "H5", "D1", "D2", "D7"]
+    # S90: at least a minute but not a whole number of minutes - bucket edges with non-zero seconds
+    tfs = ["S10", "S90", "T5", "H1", "H5", "D1"] if tier == "quick" else ["S5", "S90", "S150", "T1", "T5", "T7", "T45", "H1", "H4", "H5", "D1", "D2", "D7"]
     n = 4 if tier == "quick" else 5
     obs = []
     for tf in tfs:
